@@ -5,6 +5,7 @@ rtosc_bundle and the decomposition API run on every enumerated bundle and on
 seeded random ones (0..8 elements, nesting 0..4, random 64-bit time tags)."""
 import json, os
 from vlib import core
+from checks import appcommon
 
 
 def shape(e):
@@ -41,6 +42,9 @@ def run(ctx, as_cap=False):
                        "rtosc_bundle is variadic: driven with 0..8 elements through explicit call sites"]
     if ctx.replay:
         case = json.load(open(ctx.replay))["case"]
+        if "script" in case:
+            appcommon.run_serialize(ctx)
+            return
         p = ctx.write_ndjson("replay_in.ndjson", [case])
         ctx.driver("wire_driver", "asan", ["bundle", "in", p, ctx.path("replay_log.ndjson")])
         judge(ctx, ctx.path("replay_log.ndjson"), as_cap)
@@ -65,3 +69,7 @@ def run(ctx, as_cap=False):
     for r in (recs[len(vec) // 2], recs[-1]):
         ctx.sample(dict(timetag=r["tt"], shape=shape(dict(k="b", elems=r["elems"])), encoded_len=r.get("ret_big")))
     os.remove(ctx.path("blog.ndjson"))
+    if not as_cap:
+        appcommon.run_serialize(ctx)
+        ctx.rule += ("; second half: subtree_serialize / subtree_deserialize of the application app1 in states reached by simulated and directed message sequences, "
+                     "image compared with EncBundle of the model's elements, every capacity around 0..20 and around the needed size")
